@@ -92,7 +92,24 @@ def gen_own(rng, tier):
     return [gen_case(rng) for _ in range(n)] + [hs_case(rng) for _ in range(n)]
 
 
+def many_values_case(rng):
+    """one case with more simultaneously open parameter values than the library's default cache size (20000), under a rule whose
+    configured capacity is larger still: every value keeps its own in-flight count (seed C05-e: the capacity was clamped)"""
+    n = 20000 + rng.randint(2, 40)
+    thr = rng.choice([1, 2])
+    ops = ["clock", "hs.load res=r rules=h;c;r;0;;%d;0;0;0;%d;" % (thr, n + rng.randint(1, 50))]
+    eid = 0
+    for i in range(n):
+        eid += 1
+        ops.append("build e=%d res=r batch=1 dir=out args=v%d" % (eid, i))
+    for i in list(range(3)) + [rng.randrange(n) for _ in range(3)]:
+        for _ in range(thr):
+            eid += 1
+            ops.append("build e=%d res=r batch=1 dir=out args=v%d" % (eid, i))
+    return ops
+
+
 def gen(rng, tier):
     """the property's own streams, with every 8th case taken from the shared mixed-world stream (gen/worldmix.py)"""
     cases = gen_own(rng, tier)
-    return [c if i % 8 != 7 else MIX.gen_mix(rng) for i, c in enumerate(cases)]
+    return [many_values_case(rng)] + [c if i % 8 != 7 else MIX.gen_mix(rng) for i, c in enumerate(cases)]
